@@ -22,6 +22,15 @@ Streams
              `flattenVar (place L)`), cfdm.read(grouped) = cfdm.read(flat) = original (equals both
              ways + structural fingerprint), recorded groups / group attributes, re-write
              reproduces the layout                       (Lean model + independent oracle)
+  C11.cv     hand-made grouped files: a dimension in an enclosing group of the data variable and
+             several same-named 1-d variables spanning it at different depths - above, at, beside
+             and below the data variable, in the dimension's own group or not - plus decoys (other
+             name, other dimension) -> cfdm.read -> which variable became the dimension coordinate
+                                                         (Lean model findCoordVar + CF 2.7.1 oracle)
+  C11.gattr  a small field x data variable at depth 0-2 x properties (global and not) x
+             nc_group_attributes() (None / equal / different / not a property) -> cfdm.write ->
+             global, group and variable attributes as netCDF4 sees them (Lean model writeProps);
+             read back = original, recorded group attributes, re-write reproduces
   C11.read   hand-made CF files in which a data variable names its auxiliary coordinates, cell
              measure, ancillary variable and grid mapping by absolute / relative / proximal
              paths (with same-named decoys elsewhere), and whose third dimension lives in an
@@ -60,6 +69,9 @@ REQUIRED = [
     "C11_regroup",
     "C11_regroup_layout",
     "C11_group_attributes_meaning",
+    "C11_group_attributes_root",
+    "C11_coordinate_variable_sound",
+    "C11_old_coordinate_variable_counterexample",
     "C11_old_group_attribute_counterexample",
     "C11_rules_table",
 ]
@@ -553,6 +565,24 @@ def gen_res(rng):
     else:
         attr = rng.choice(rule_names())
     ref = gen_ref(rng, groups, at)
+    if rng.random() < 0.3 and len(groups) > 1:
+        # plant one name in several groups - above, at, beside and below the referrer - so that the nearest /
+        # shallowest candidate has competitors at other depths; sometimes a dimension of that name as well
+        # (a local apex somewhere on the way up)
+        n = rng.choice(VOCAB)
+        for g in groups:
+            have = [v["name"] for v in g["vars"]]
+            if rng.random() < 0.45 and n not in have and (g["path"] != at or rng.random() < 0.3):
+                g["vars"].append(dict(name=n, dims=[n] if n in g["dims"] else []))
+        if rng.random() < 0.4:
+            g = rng.choice(groups)
+            if n not in g["dims"] and all(v["name"] != n or v["dims"] == [n] for v in g["vars"]):
+                g["dims"].append(n)
+                for v in g["vars"]:
+                    if v["name"] == n:
+                        v["dims"] = [n]
+        if rng.random() < 0.75:
+            ref = n
     strict = rng.random() < 0.2
     coords = None
     if attr == "cell_methods" and not strict and rng.random() < 0.6:
@@ -940,7 +970,7 @@ GP = ["g0", "g1", "g2"]
 def assignment(p, f, names, dnames):
     """Group path for every named variable and dimension of the field (base name -> list)."""
     rng = fw.rng_for(p["aseed"], "C11.assign")
-    depth = rng.choice([0, 1, 1, 2, 2, 3, 3])
+    depth = rng.choice([0, 0, 1, 1, 2, 2, 3] if p["gattrs"] else [0, 1, 1, 2, 2, 3, 3])
     spine = [rng.choice(GP) for _ in range(depth)]
     dgroup = {}
     axes = sorted(f.domain_axes(todict=True))
@@ -1014,7 +1044,9 @@ def assignment(p, f, names, dnames):
             vgroup[n] = newg
             dgroup[n] = newg
     ga = {}
-    if p["gattrs"] and vgroup["vdata"]:
+    if p["gattrs"]:
+        # (also for a data variable in the root group: the recorded group attributes then have no group to
+        # go to and must leave the variable's attributes alone)
         for a, v in rng.sample(GATTR_POOL, rng.randint(1, 3)):
             mode = rng.choice(["none", "none", "same", "other", "absent"])
             ga[a] = mode
@@ -1709,15 +1741,273 @@ def oracle_read(c):
     return None
 
 
+# ------------------------------------------------------------------ C11.cv
+def _preorder(paths):
+    order = list(paths)
+    return sorted(order, key=lambda q: [order.index(q[:i + 1]) for i in range(len(q))])
+
+
+def gen_cv(rng):
+    paths = [[]]
+    for _ in range(rng.randint(2, 7)):
+        par = rng.choice([q for q in paths if len(q) < 3])
+        nm = rng.choice(GNAMES)
+        if par + [nm] not in paths:
+            paths.append(par + [nm])
+    # a data variable with room above it, most of the time
+    deep = [q for q in paths if len(q) >= 2] or paths
+    fg = rng.choice(deep if rng.random() < 0.7 else paths)
+    for extra in ([fg + ["k"]] if len(fg) < 3 and rng.random() < 0.4 else []):
+        paths.append(extra)                              # something below the data variable too
+    paths = _preorder(paths)
+    dg = fg[:rng.randint(0, len(fg))] if rng.random() < 0.8 else []
+    below = [q for q in paths if q[:len(dg)] == dg]
+    cands = []
+    for q in below:
+        on_path = fg[:len(q)] == q
+        pr = 0.55 if (on_path and q != dg) else (0.3 if q == dg else 0.3)
+        if rng.random() < pr:
+            cands.append(q)
+    decoys = []
+    for q in paths:
+        if q not in cands and q != dg and rng.random() < 0.25:
+            # (a variable of another name spanning the dimension needs the dimension in scope)
+            decoys.append([q, rng.choice(["othername", "otherdim"]) if q[:len(dg)] == dg else "otherdim"])
+    return dict(paths=paths, fg=fg, dg=dg, cands=cands, decoys=decoys)
+
+
+def mk_cv(p):
+    p = dict(p)
+    cs = ";".join(enc_path(q) for q in p["cands"]) or "-"
+    line = f"C11.cv fg={enc_path(p['fg'])} dg={enc_path(p['dg'])} apex={int(p['dg'] in p['cands'])} cs={cs} old=0"
+    fg, dg = p["fg"], p["dg"]
+    above = sum(1 for q in p["cands"] if fg[:len(q)] == q)
+    tags = [f"cv:proximal-candidates={min(above, 3)}", f"cv:lateral-candidates={min(len(p['cands']) - above, 3)}",
+            f"cv:apexvar={int(dg in p['cands'])}", f"cv:dimdepth={len(dg)}"]
+    return Case("C11.cv", p, line, key=line + json.dumps(p["decoys"]), nontrivial=len(p["cands"]) >= 1 and len(fg) >= 1, tags=tags)
+
+
+def impl_cv(c):
+    import netCDF4
+    C = cfdm()
+    p = c.payload
+    path = tmpfile("cv")
+    try:
+        nc = netCDF4.Dataset(path, "w", format="NETCDF4")
+        nc.Conventions = "CF-1.11"
+        handles = {(): nc}
+        for q in p["paths"]:
+            if q:
+                handles[tuple(q)] = handles[tuple(q[:-1])].createGroup(q[-1])
+        nc.createDimension("lon", 4)
+        v = nc.createVariable("lon", "f8", ("lon",))
+        v[:] = [0.0, 90.0, 180.0, 270.0]
+        v.standard_name = "longitude"
+        v.units = "degrees_east"
+        nc.createDimension("other", 3)
+        handles[tuple(p["dg"])].createDimension("lat", 3)
+        for i, q in enumerate(p["cands"]):
+            v = handles[tuple(q)].createVariable("lat", "f8", ("lat",))
+            v[:] = np.array([-10.0, 0.0, 10.0]) * (i + 1)
+            v.standard_name = "latitude"
+            v.units = "degrees_north"
+            v.long_name = enc_path(q)
+        for q, kind in p["decoys"]:
+            if kind == "othername":
+                v = handles[tuple(q)].createVariable("latx", "f8", ("lat",))
+                v.long_name = "decoy " + enc_path(q)
+            else:
+                v = handles[tuple(q)].createVariable("lat", "f8", ("other",))
+                v.long_name = "decoy " + enc_path(q)
+            v[:] = [7.0, 8.0, 9.0]
+        d = handles[tuple(p["fg"])].createVariable("data", "f8", ("lat", "lon"))
+        d[:] = np.arange(12.0).reshape(3, 4)
+        d.standard_name = "air_temperature"
+        d.units = "K"
+        nc.close()
+        fs = [f for f in C.read(path) if f.get_property("standard_name", None) == "air_temperature"]
+        if len(fs) != 1:
+            return f"fields={len(fs)}"
+        f = fs[0]
+        got = [x.get_property("long_name", "?") for x in f.dimension_coordinates(todict=True).values()
+               if x.get_property("standard_name", None) == "latitude"]
+        lon = [x for x in f.dimension_coordinates(todict=True).values() if x.get_property("standard_name", None) == "longitude"]
+        c.extra = dict(nlon=len(lon), shape=list(f.data.shape))
+        if not got:
+            return "none"
+        return "some:" + got[0] if len(got) == 1 else "several"
+    finally:
+        _rm(path)
+
+
+def cv_designated(p):
+    """CF 2.7.1: nearest same-named variable from the data variable's group up to the local apex (the
+    dimension's group); else the one strictly nearest to the apex among the others; else none."""
+    fg, dg, cands = p["fg"], p["dg"], p["cands"]
+    for k in range(len(fg), len(dg) - 1, -1):
+        if fg[:k] in cands:
+            return fg[:k]
+    rest = sorted(cands, key=len)
+    if rest and (len(rest) == 1 or len(rest[0]) < len(rest[1])):
+        return rest[0]
+    return None
+
+
+def oracle_cv(c):
+    p = c.payload
+    q = cv_designated(p)
+    want = "none" if q is None else "some:" + enc_path(q)
+    if str(c.impl_out) != want:
+        return (f"dimension coordinate of {enc_path(p['fg'] + ['data'])} for dimension {enc_path(p['dg'] + ['lat'])} came from "
+                f"{c.impl_out}, CF proximal/lateral search among {[enc_path(x) for x in p['cands']]} gives {want}")
+    if isinstance(c.extra, dict) and (c.extra.get("nlon") != 1 or c.extra.get("shape") != [3, 4]):
+        return "the field lost its longitude coordinate or its shape"
+    return None
+
+
+def classify_cv(c):
+    p = c.payload
+    fg, dg, cands = p["fg"], p["dg"], p["cands"]
+    if dg in cands and any(fg[:len(q)] == q and len(q) > len(dg) for q in cands) and str(c.impl_out) == "some:" + enc_path(dg):
+        return "read-coordinate-variable-same-group-shortcut-overrides-nearer"
+    return "unclassified-cv"
+
+
+# ------------------------------------------------------------------ C11.gattr
+DESC_ATTRS = ["comment", "history", "title", "institution", "source", "references"]   # description of file contents
+GA_POOL = [("project", "research"), ("foo", "bar"), ("experiment_id", "run-42"), ("comment", "made_by_verif"),
+           ("history", "h1"), ("title", "t1")]
+
+
+def gen_gattr(rng):
+    depth = rng.choice([0, 0, 1, 1, 2])
+    grp = [rng.choice(GP) for _ in range(depth)]
+    props, ga = {}, {}
+    for a, v in rng.sample(GA_POOL, rng.randint(1, 4)):
+        mode = rng.choice(["plain", "none", "none", "same", "other", "absent"])
+        if mode != "absent":
+            props[a] = v
+        if mode == "none":
+            ga[a] = None
+        elif mode == "same":
+            ga[a] = v
+        elif mode in ("other", "absent"):
+            ga[a] = v + "_group"
+    return dict(grp=grp, props=props, ga=ga)
+
+
+def mk_gattr(p):
+    p = dict(p)
+    props = ",".join(f"{a}>{v}" for a, v in p["props"].items()) or "-"
+    ga = ",".join(f"{a}>{'-' if v is None else v}" for a, v in p["ga"].items()) or "-"
+    line = f"C11.gattr grp={enc_path(p['grp'])} glob={','.join(DESC_ATTRS)} props={props} ga={ga}"
+    modes = sorted({("none" if v is None else ("absent" if a not in p["props"] else ("same" if p["props"][a] == v else "other")))
+                    for a, v in p["ga"].items()})
+    return Case("C11.gattr", p, line, key=line, nontrivial=bool(p["ga"]),
+                tags=[f"gattr:depth={len(p['grp'])}", "gattr:modes=" + "+".join(modes or ["-"])])
+
+
+def _small_field():
+    C = cfdm()
+    f = C.Field(properties={"standard_name": "air_temperature", "units": "K"})
+    a = f.set_construct(C.DomainAxis(3))
+    f.set_data(C.Data(np.array([1.0, 2.0, 3.0])), axes=[a])
+    f.nc_set_variable("q")
+    return f
+
+
+def _fmt_pairs(d):
+    return "[" + ",".join(f"{a}>{d[a]}" for a in sorted(d)) + "]"
+
+
+def impl_gattr(c):
+    import netCDF4
+    C = cfdm()
+    p = c.payload
+    f = _small_field()
+    f.set_properties(p["props"])
+    f.nc_set_variable_groups(p["grp"])
+    f.nc_set_group_attributes(dict(p["ga"]))
+    path, path2 = tmpfile("ga"), tmpfile("ga2")
+    names = [a for a, _ in GA_POOL]
+
+    def look(fn):
+        nc = netCDF4.Dataset(fn, "r")
+        try:
+            g = nc
+            for x in p["grp"]:
+                g = g.groups[x]
+            v = g.variables["q"]
+            return ({a: str(nc.getncattr(a)) for a in nc.ncattrs() if a in names},
+                    {a: str(g.getncattr(a)) for a in g.ncattrs() if a in names} if p["grp"] else {},
+                    {a: str(v.getncattr(a)) for a in v.ncattrs() if a in names})
+        finally:
+            nc.close()
+
+    try:
+        C.write(f, path)
+        glob, grp, var = look(path)
+        out = f"glob={_fmt_pairs(glob)} grp={_fmt_pairs(grp)} var={_fmt_pairs(var)}"
+        ex = dict()
+        c.extra = ex
+        h = C.read(path)
+        ex["n"] = len(h)
+        if len(h) == 1:
+            h = h[0]
+            ex["props"] = {a: (None if h.get_property(a, None) is None else str(h.get_property(a))) for a in names}
+            ex["eq"] = [bool(h.equals(f)), bool(f.equals(h))]
+            ex["rec_groups"] = list(h.nc_variable_groups())
+            ex["rec_ga"] = sorted(h.nc_group_attributes())
+            try:
+                C.write(h, path2)
+                ex["again"] = [_fmt_pairs(x) for x in look(path2)]
+                ex["first"] = [_fmt_pairs(x) for x in (glob, grp, var)]
+            except Exception as e:
+                ex["rewrite_error"] = repr(e)[:200]
+        return out
+    finally:
+        _rm(path, path2)
+
+
+def oracle_gattr(c):
+    p, ex = c.payload, c.extra
+    if str(c.impl_out).startswith("raised") or not isinstance(ex, dict):
+        return "cfdm.write / cfdm.read failed: " + str(c.impl_out)
+    if ex.get("n") != 1:
+        return f"{ex.get('n')} fields read back"
+    for a, _ in GA_POOL:
+        if ex["props"].get(a) != p["props"].get(a):
+            return (f"property {a!r} is {ex['props'].get(a)!r} after the round trip (data variable at depth {len(p['grp'])}, "
+                    f"group attribute record {p['ga'].get(a, 'absent')!r}), the original has {p['props'].get(a)!r}")
+    if not all(ex["eq"]):
+        return f"the field read back does not equal the original: equals {ex['eq']}"
+    if ex["rec_groups"] != p["grp"]:
+        return f"recorded groups {ex['rec_groups']}"
+    if "rewrite_error" in ex:
+        return "writing the read field again failed: " + ex["rewrite_error"]
+    if ex["again"] != ex["first"]:
+        return f"re-writing the read field gives other attributes: {ex['first']} -> {ex['again']}"
+    if p["grp"]:
+        # a group attribute record on a property of the field ends up on the group
+        g = str(c.impl_out).split(" ")[1]
+        for a, v in p["ga"].items():
+            if a in p["props"] and f"{a}>" not in g:
+                return f"group attribute {a} was not written to {enc_path(p['grp'])}"
+    return None
+
+
 # ------------------------------------------------------------------ framework entry points
 def gen(rng, tier, n):
     n_place = max(6, int(n * (0.13 if tier == "quick" else 0.2)))
     n_read = int(n * 0.07)
     n_name = int(n * 0.15)
     n_grp = int(n * 0.05)
-    n_res = max(0, n - n_place - n_read - n_name - n_grp)
+    n_cv = int(n * 0.1)
+    n_gattr = int(n * 0.08)
+    n_res = max(0, n - n_place - n_read - n_name - n_grp - n_cv - n_gattr)
     # interleave so that a deadline cuts every stream alike
-    plan = (["res"] * n_res + ["name"] * n_name + ["grp"] * n_grp + ["place"] * n_place + ["read"] * n_read)
+    plan = (["res"] * n_res + ["name"] * n_name + ["grp"] * n_grp + ["place"] * n_place + ["read"] * n_read
+            + ["cv"] * n_cv + ["gattr"] * n_gattr)
     rng.shuffle(plan)
     for s in plan:
         if s == "res":
@@ -1728,16 +2018,22 @@ def gen(rng, tier, n):
             yield mk_grp(gen_grp(rng))
         elif s == "place":
             yield mk_place(gen_place(rng, tier))
+        elif s == "cv":
+            yield mk_cv(gen_cv(rng))
+        elif s == "gattr":
+            yield mk_gattr(gen_gattr(rng))
         else:
             yield mk_read(gen_read(rng))
 
 
 def from_payload(stream, payload):
-    return {"C11.res": mk_res, "C11.name": mk_name, "C11.grp": mk_grp, "C11.place": mk_place, "C11.read": mk_read}[stream](payload)
+    return {"C11.res": mk_res, "C11.name": mk_name, "C11.grp": mk_grp, "C11.place": mk_place, "C11.read": mk_read,
+            "C11.cv": mk_cv, "C11.gattr": mk_gattr}[stream](payload)
 
 
 def impl(c):
-    fn = {"C11.res": impl_res, "C11.name": impl_name, "C11.grp": impl_grp, "C11.place": impl_place, "C11.read": impl_read}.get(c.stream)
+    fn = {"C11.res": impl_res, "C11.name": impl_name, "C11.grp": impl_grp, "C11.place": impl_place, "C11.read": impl_read,
+          "C11.cv": impl_cv, "C11.gattr": impl_gattr}.get(c.stream)
     if fn is None:
         raise fw.HarnessError("unknown stream " + c.stream)
     return fn(c)
@@ -1756,7 +2052,8 @@ def agree(c):
 
 
 def oracle(c):
-    fn = {"C11.res": oracle_res, "C11.name": oracle_name, "C11.grp": oracle_grp, "C11.place": oracle_place, "C11.read": oracle_read}[c.stream]
+    fn = {"C11.res": oracle_res, "C11.name": oracle_name, "C11.grp": oracle_grp, "C11.place": oracle_place, "C11.read": oracle_read,
+          "C11.cv": oracle_cv, "C11.gattr": oracle_gattr}[c.stream]
     return fn(c)
 
 
@@ -1767,6 +2064,8 @@ def classify(c):
         return classify_name(c)
     if c.stream == "C11.place":
         return classify_place(c)
+    if c.stream == "C11.cv":
+        return classify_cv(c)
     if c.stream == "C11.read":
         z = c.payload.get("zdim")
         if z and z["xg"] and z["cv"] != z["xg"] and "dimz=none" in str(c.impl_out):
